@@ -50,8 +50,8 @@ class C05(Prop):
         "lost datagram may only turn a suffix into TimeoutError. non-trivial = the subtree is non-empty or ends in endOfMibView/noSuchName; "
         "distinct = hash of (MIB shape, base kind, repetitions, cap) plus abstract trace"
     )
-    quick_runs = 600
-    thorough_runs = 12000
+    quick_runs = 5000
+    thorough_runs = 80000
 
     def families(self, tier):
         return [("equiv", 3), ("benign-faults", 2)]
@@ -127,6 +127,7 @@ class C05(Prop):
         first = runs[0]
         first.all_runs = runs
         for r in runs[1:]:
+            first.session_failures += r.session_failures
             for k, v in r.sim.counters.items():
                 first.sim.counters[k] = first.sim.counters.get(k, 0) + v
             first.sim.hist.append(("variant", r.sim.trace_hash()))
@@ -139,6 +140,8 @@ class C05(Prop):
         rows = plan["agent"]["mib"]
         lost = any(("req" in s and s["req"] == "drop") or any(i.get("k") == "none" for i in s.get("replies", [])) for s in plan.get("scripts", {}).values())
         for r in run.all_runs:
+            if not r.results:
+                continue
             res = r.results[0]
             sess = r.sess_cfg[0]
             method = res["op"]["method"]
